@@ -568,6 +568,12 @@ pub fn run(rep: &Report) {
     let thorough = rep.thorough();
     random_fn_plane(rep, if thorough { 20_000_000 } else { 400_000 });
     ins_plane(rep, if thorough { 3000 } else { 50 }, false, rep.seed ^ 0xBEEF);
+    crate::insplane::mixed_history(rep, if rep.thorough() { 40_000 } else { 500 }, 60, rep.seed ^ 0x142, "C02 among all instruction families", "ins", &|i| match i {
+        Ins::Alu2(op, ..) => ALL_LOGIC2.contains(op),
+        Ins::Un(op, _) => matches!(op, Un::Not),
+        Ins::Sh(..) => true,
+        _ => false,
+    });
     crate::insplane::history_plane(rep, if rep.thorough() { 40_000 } else { 600 }, 120, rep.seed ^ 0x42, false, "C02 lock-step history", "ins", &|rng| {
         let k = rng.below(12);
         let nf = if k < 4 { ALU2_FORMS } else if k == 4 { UN_FORMS } else { SH_FORMS };
